@@ -14,7 +14,7 @@ ID = 'C10'
 LEVEL = 'exploration'
 RULE = (
     'cases: random free-energy grids with 2-6 voxels per axis (mostly unequal axes), 0-40 % blocked voxels (energy '
-    'far above, one ulp above or exactly at the threshold; some admissible voxels one ulp below it), energies from random values or from -kT ln p of a random density; both neighbourhood '
+    'far above, one ulp above or exactly at the threshold, inf or NaN; some admissible voxels one ulp below it), energies from random values or from -kT ln p of a random density; both neighbourhood '
     'modes; all five path-finding methods; all start/stop pairs for grids with <= 24 admissible voxels, 3 random '
     'pairs per method otherwise; percolating paths for all 7 direction sets with 1-4 peaks.  Oracle: own heap '
     'Dijkstra / union-find bottleneck over the periodic grid with the neighbourhood of the statement (26 or 6), cost '
@@ -120,7 +120,7 @@ def run_unit(unit, rng, ctx):
         Fd0 = rng.uniform(0, rng.choice([0.5, 3.0, 12.0, 40.0]), size=shape)
         # blocked voxels: far above the threshold, EXACTLY at the threshold (1e7: not below it, so blocked), or
         # one ulp above it; a few admissible voxels sit one ulp below the threshold
-        wall = float(rng.choice([1e300, 1e300, 1e7, float(np.nextafter(1e7, np.inf))]))
+        wall = float(rng.choice([1e300, 1e300, 1e7, float(np.nextafter(1e7, np.inf)), np.inf, np.nan]))
         Fd0 = np.where(rng.uniform(size=shape) < rng.choice([0.0, 0.2, 0.4]), wall, Fd0)
         if rng.uniform() < 0.25:
             Fd0 = np.where(rng.uniform(size=shape) < 0.1, float(np.nextafter(1e7, 0)), Fd0)
